@@ -40,8 +40,12 @@ Record float_time_laws (L : leaf) : Prop := mkftlaws {
   ft_time_plain : forall s n, forallb plain (fmt_time L s n) = true;
   ft_f64_num : forall b, f64special b = false -> numtext (fmt_f64 L b);
   ft_f32_num : forall b, f32special b = false -> numtext (fmt_f32 L b);
-  ft_f64_ok : forall D b, f64special b = false -> b < 2 ^ 64 -> exists i, naked_num L D (fmt_f64 L b) = Ok i;
-  ft_f32_ok : forall D b, f32special b = false -> b < 2 ^ 32 -> exists i, naked_num L D (fmt_f32 L b) = Ok i;
+  (* guarded by [num_read_ok] (Wire/JsonRT.v): a float text that is a bare integer literal of 2^63 or more is
+     refused under SignedInteger without PreferFloat (float_bareint_refuted below) *)
+  ft_f64_ok : forall D b, f64special b = false -> b < 2 ^ 64 -> num_read_ok D (fmt_f64 L b) = true ->
+              exists i, naked_num L D (fmt_f64 L b) = Ok i;
+  ft_f32_ok : forall D b, f32special b = false -> b < 2 ^ 32 -> num_read_ok D (fmt_f32 L b) = true ->
+              exists i, naked_num L D (fmt_f32 L b) = Ok i;
   (* under PreferFloat the integer texts go to the float parser as well *)
   ft_pf_int : forall z, (- 2 ^ 63 <= z < 2 ^ 63)%Z -> exists v, pfloat L (int_text z) = Some v;
   ft_pf_uint : forall u, u < 2 ^ 64 -> exists v, pfloat L (udigits u) = Some v }.
@@ -288,8 +292,35 @@ Proof.
   - reflexivity.
   - intros b _. split; [discriminate|reflexivity].
   - intros b _. split; [discriminate|reflexivity].
-  - intros [pf si dk mi md] b _ _. destruct pf, si; vm_compute; eauto.
-  - intros [pf si dk mi md] b _ _. destruct pf, si; vm_compute; eauto.
+  - intros [pf si dk mi md] b _ _ _. destruct pf, si; vm_compute; eauto.
+  - intros [pf si dk mi md] b _ _ _. destruct pf, si; vm_compute; eauto.
   - eauto.
   - eauto.
+Qed.
+
+(* ------------------------------------------------------------------ *)
+(* the UNGUARDED float law is false of the implementation (known finding F15-1's class): float64 1e19 is
+   written by the real encoder as the bare integer literal 10000000000000000000 (observed text: the table
+   below is what the real Encoder wrote and what the real parseFloat64 returns for it); under SignedInteger
+   without PreferFloat the number reader takes it for an integer, finds it >= 2^63 and reports an error.
+   Without SignedInteger it comes back as the UNSIGNED INTEGER 10^19, not as a float. *)
+Definition bareint_T : tables :=
+  mktables [(4891288408196988160, [49; 48; 48; 48; 48; 48; 48; 48; 48; 48; 48; 48; 48; 48; 48; 48; 48; 48; 48; 48])] []
+           [([49; 48; 48; 48; 48; 48; 48; 48; 48; 48; 48; 48; 48; 48; 48; 48; 48; 48; 48; 48], 4891288408196988160)] [].
+
+Lemma float_bareint_refuted :
+  ~ full_float_law (c09_leaf bareint_T) /\
+  (let D := mkdopts false true false false 0 in
+   let L := c09_leaf bareint_T in
+   let o := mkeopts 0 0 false false false false false in
+   f64special 4891288408196988160 = false /\ num_read_ok D (fmt_f64 L 4891288408196988160) = false /\
+   enc_top L o (IF64 4891288408196988160) = [49; 48; 48; 48; 48; 48; 48; 48; 48; 48; 48; 48; 48; 48; 48; 48; 48; 48; 48; 48] /\
+   dec_naked L D 50 (enc_top L o (IF64 4891288408196988160)) = Err EOther /\
+   dec_naked L (mkdopts false false false false 0) 50 (enc_top L o (IF64 4891288408196988160))
+     = Ok (IUint 10000000000000000000, [])).
+Proof.
+  split.
+  - intro H. destruct (H (mkdopts false true false false 0) 4891288408196988160 eq_refl eq_refl) as [i Hi].
+    vm_compute in Hi. discriminate Hi.
+  - vm_compute. repeat apply conj; reflexivity.
 Qed.
